@@ -51,6 +51,10 @@ def extra_scenarios(tier, seed):
             mode = ['das' if p % 2 == 0 else 'send' for p in range(1, n + 1)]
             out.append(dict(n=n, r=k, mode=mode, schedule=[], jitter=True, auth='', reject=2))
             out.append(dict(n=n, r=k, mode=mode, schedule=[], jitter=True, auth='LOGIN-NOENC', reject=n if n % 2 == 0 else n - 1))
+    # the primary port is unreachable and every dial falls back to the second port, from many goroutines at once
+    for n in ([8, 32] if tier == 'quick' else [4, 8, 16, 32, 64]):
+        out.append(dict(n=n, r=1, mode=['das'] * n, schedule=[], jitter=True, auth='', reject=0, fallback=True))
+        out.append(dict(n=n, r=2, mode=['das' if p % 3 else 'send' for p in range(1, n + 1)], schedule=[], jitter=True, auth='', reject=0, fallback=True))
     return out
 
 
